@@ -564,61 +564,113 @@ def entity_total(bpj):
     return len(bx.entities_of(bpj))
 
 
-def mismarked_pole_centres(expected, pole):
+def mismarked_tiles(expected):
     """finding G1: before optimisation TileGrid.rebuild_from_placements reads the TILE position of a
-    user-placed entity as its CENTRE, so tile int(x - w/2), int(y - h/2) (truncated) is marked instead of
-    (x, y).  Returns the centres (units) of the grid poles whose footprint would meet a tile that is
-    wrongly marked or wrongly left free: the poles that are skipped although nothing is there."""
-    pp = proto(POLE_PROTO[pole])
-    pw, ph = pp["tw"] // UNIT, pp["th"] // UNIT
+    user-placed entity as its CENTRE, so the w x h tiles from int(x - w/2), int(y - h/2) (truncated) are
+    marked occupied instead of those from (x, y)"""
     out = set()
     for n, x, y in expected:
         p = proto(n)
         w, h = p["tw"] // UNIT, p["th"] // UNIT
         mx, my = int(x - w / 2.0), int(y - h / 2.0)
-        for tx in range(mx, mx + w):
-            for ty in range(my, my + h):
-                for dx in range(pw):
-                    for dy in range(ph):
-                        out.add(((tx - dx) * UNIT + pp["tw"] // 2, (ty - dy) * UNIT + pp["th"] // 2))
+        out |= {(mx + i, my + j) for i in range(w) for j in range(h)}
     return out
 
 
-def classify_uncovered(case, e, tpoles):
+def planned_grid(case, n_entities):
+    """the pole grid PowerPlanner.add_power_pole_grid of the pinned tree plans for this program (needed
+    only to tell the listed findings G1 and G2 apart): lattice of spacing 2 x CFG_RADIUS over the extent
+    estimated from the entity count and the user placements.  returns (planned centres, skipped centres)
+    in units; skipped = planned poles whose footprint meets a tile marked (wrongly) for a user entity"""
+    pole = case.cfg[0]
+    pp = proto(POLE_PROTO[pole])
+    fw, fh = pp["tw"] // UNIT, pp["th"] // UNIT
+    r = CFG_RADIUS[pole] / UNIT
+    est = math.sqrt(n_entities * 3.5 * 3.5) + 10.0
+    exp = case.expected or []
+    if exp:
+        umin_x = min([0.0] + [float(x) for _, x, _ in exp])
+        umin_y = min([0.0] + [float(y) for _, _, y in exp])
+        umax_x = max([0.0] + [x + proto(n)["tw"] // UNIT for n, x, _ in exp])
+        umax_y = max([0.0] + [y + proto(n)["th"] // UNIT for n, _, y in exp])
+        width = max(est, umax_x - umin_x + 10.0)
+        height = max(est, umax_y - umin_y + 10.0)
+        off_x, off_y = min(0.0, umin_x) - 5.0, min(0.0, umin_y) - 5.0
+    else:
+        width = height = est
+        off_x = off_y = 0.0
+    spacing = 2.0 * r
+    base = -spacing / 2.0 + fw / 2.0
+    marked = mismarked_tiles(exp)
+    planned, skipped = [], []
+    x = off_x + base
+    while x < off_x + width:
+        y = off_y + base
+        while y < off_y + height:
+            tx, ty = int(round(x)), int(round(y))
+            c = (tx * UNIT + pp["tw"] // 2, ty * UNIT + pp["th"] // 2)
+            planned.append(c)
+            if any((tx + i, ty + j) in marked for i in range(fw) for j in range(fh)):
+                skipped.append(c)
+            y += spacing
+        x += spacing
+    return planned, set(skipped)
+
+
+def classify_uncovered(case, e, tpoles, n_entities):
     """which listed region explains that consumer e (ents() dict) is outside every supply square"""
     pole = case.cfg[0]
     r = CFG_RADIUS[pole]
-    as_planned = [dict(p, supply=r) for p in tpoles]
-    if pole == "big" and any(supplies(p, e) for p in as_planned):
+    if pole == "big" and any(supplies(dict(p, supply=r), e) for p in tpoles):
         return "S7-big"
-    if case.expected:
-        for cx, cy in mismarked_pole_centres(case.expected, pole):
-            if supplies({"x": cx, "y": cy, "supply": r}, e):
-                return "G1"
-    if not tpoles:
-        return "G2"
-    x1 = min(p["x"] for p in tpoles) - r
-    x2 = max(p["x"] for p in tpoles) + r
-    y1 = min(p["y"] for p in tpoles) - r
-    y2 = max(p["y"] for p in tpoles) + r
-    inside = (2 * e["x"] - e["tw"] < 2 * x2 and 2 * x1 < 2 * e["x"] + e["tw"] and
-              2 * e["y"] - e["th"] < 2 * y2 and 2 * y1 < 2 * e["y"] + e["th"])
-    if not inside:
-        return "G2"
-    # inside the hull of the remaining poles: a hole left by a skipped or trimmed pole
+    planned, skipped = planned_grid(case, n_entities)
+    # the planner keeps a pole when some entity CENTRE is within the radius (LayoutPlanner._trim_power_poles)
+    near = [c for c in planned if abs(c[0] - e["x"]) <= r and abs(c[1] - e["y"]) <= r]
+    if not near:
+        return "G2"  # beyond the planned extent
+    if all(c in skipped for c in near):
+        return "G1"  # the planned pole was skipped because of a wrongly marked tile
     return None
 
 
-def classify_pole_failure(case, f, es):
+def pole_roles(case):
+    """entity_number -> role of the compiler's placement ('power_pole' | 'wire_relay'), when harvested"""
+    h = case.harvest or {}
+    if "places" not in h:
+        return {}
+    num = bx.id_to_number(case.bpj, h)
+    return {n: h["places"][pid][3] for pid, n in num.items() if h["places"][pid][0] in bx.POLES}
+
+
+def nearest_rank(a, b, poles):
+    """how many poles other than a and b lie at least as near to a as b does (with ties the sort order of
+    the emitter decides, so only a count below the cut proves that b was among the candidates tried)"""
+    d = dist2(a, b)
+    return sum(1 for p in poles if p["id"] != a["id"] and p["id"] != b["id"] and dist2(a, p) <= d)
+
+
+def classify_pole_failure(case, f, es, roles):
     k = f["kind"]
     pole = case.cfg[0]
     if k == "uncovered":
         by = {e["id"]: e for e in es}
         tp = [p for p in es if p["cls"] == "CPole" and p["name"] == POLE_PROTO[pole]]
-        return classify_uncovered(case, by[f["entity"]["entity_number"]], tp)
+        return classify_uncovered(case, by[f["entity"]["entity_number"]], tp, sum(1 for x in es if x["cls"] != "CPole"))
     if k == "grid-disconnected":
         # G3: the components are farther apart than any copper wire could span
-        return "G3" if f["within_reach_pairs"] == 0 else None
+        if not f["cross_pairs_within_reach"]:
+            return "G3"
+        # G4: every legal wire between two components joins poles that are not among each other's
+        # nearest neighbours (5 for grid poles, 2 for relays): the emitter never tried them
+        poles = [e for e in es if e["cls"] == "CPole"]
+        by = {e["id"]: e for e in poles}
+        for ia, ib in f["cross_pairs_within_reach"]:
+            a, b = by[ia], by[ib]
+            ka = 2 if roles.get(ia) == "wire_relay" else 5
+            kb = 2 if roles.get(ib) == "wire_relay" else 5
+            if nearest_rank(a, b, poles) < ka or nearest_rank(b, a, poles) < kb:
+                return None
+        return "G4"
     return None
 
 
@@ -627,7 +679,8 @@ def pole_failures_classified(case):
     es = ents(case.bpj)
     pole_name = POLE_PROTO[case.cfg[0]]
     fs = pole_failures(case.bpj, pole_name, limit=10 ** 6)
-    # enrich grid-disconnected with the number of pole pairs of different components within reach
+    roles = pole_roles(case)
+    # enrich grid-disconnected with the pole pairs of different components that a legal wire could join
     dsu = bx.DSU()
     for w in bx.wires_of(case.bpj):
         if int(w[1]) == 5 and int(w[3]) == 5:
@@ -635,19 +688,23 @@ def pole_failures_classified(case):
     poles = [e for e in es if e["cls"] == "CPole"]
     for f in fs:
         if f["kind"] == "grid-disconnected":
-            n = 0
-            ex = None
+            pairs = []
             for i, a in enumerate(poles):
                 for b in poles[i + 1:]:
                     if dsu.find(a["id"]) != dsu.find(b["id"]):
                         d2 = dist2(a, b)
                         if d2 <= a["kreach"] ** 2 and d2 <= b["kreach"] ** 2:
-                            n += 1
-                            ex = ex or {"a": describe(a), "b": describe(b), "distance": math.sqrt(d2) / UNIT}
-            f["within_reach_pairs"] = n
-            if ex:
-                f["unwired_pair_within_reach"] = ex
-    return [(f, classify_pole_failure(case, f, es)) for f in fs]
+                            pairs.append((a["id"], b["id"]))
+            f["cross_pairs_within_reach"] = pairs
+            if pairs:
+                a, b = [p for p in poles if p["id"] == pairs[0][0]][0], [p for p in poles if p["id"] == pairs[0][1]][0]
+                f["unwired_pair_within_reach"] = {"a": describe(a), "b": describe(b), "distance": math.sqrt(dist2(a, b)) / UNIT,
+                                                  "nearer_poles_than_partner": [nearest_rank(a, b, poles), nearest_rank(b, a, poles)]}
+    out = [(f, classify_pole_failure(case, f, es, roles)) for f in fs]
+    for f, _ in out:
+        if "cross_pairs_within_reach" in f:
+            f["cross_pairs_within_reach"] = f["cross_pairs_within_reach"][:10]
+    return out
 
 
 def classify_layout_failure(case, f):
@@ -671,12 +728,20 @@ def witnesses(prop):
     out = []
     for f in known_findings(prop):
         w = f.get("witness")
-        if f.get("kind") != "finding" or not w or "text" not in w:
+        if f.get("kind") != "finding" or not w:
+            continue
+        if "lamp_rows" in w:
+            # large witness given by its generator arguments: rows of (count, y, wired) lamps
+            w = dict(w)
+            w["text"], exp_rows = lamp_rows_program([tuple(r) for r in w["lamp_rows"]])
+            w["expected"] = [list(x) for x in exp_rows]
+        if "text" not in w:
             continue
         o = w.get("opts", {})
         cfg = (o.get("power_pole_type"), o.get("optimize", True), o.get("time_limit"))
         exp = [tuple(x) for x in w["expected"]] if w.get("expected") is not None else None
-        out.append((f, Case("w" + f["id"].replace("-", "_"), w["text"], cfg, "witness", expected=exp)))
+        text = w["text"]
+        out.append((f, Case("w" + f["id"].replace("-", "_"), text, cfg, "witness", expected=exp)))
     return out
 
 
@@ -692,3 +757,64 @@ def static_props_failures(case):
                 out.append({"kind": "static-property", "entity": [n, int(tx), int(ty)], "property": k, "expected": v,
                             "observed": got})
     return out
+
+
+def far_program(seed):
+    """lamps far apart, driven by two different producers: forces relay chains (and, with a pole
+    option, a pole grid that has to span the gaps)"""
+    import random
+
+    r = random.Random(seed)
+    n = r.randint(3, 5)
+    pos = set()
+    while len(pos) < n:
+        pos.add((r.randint(-35, 35), r.randint(-20, 20)))
+    pos = sorted(pos)
+    lines = ['Signal p = ("signal-A", 3);', 'Signal q = ("signal-B", 4);', "Signal u = p * 2;", "Signal v = q + p;"]
+    for k, (x, y) in enumerate(pos):
+        lines.append(f'Entity l{k} = place("small-lamp", {x}, {y});')
+        lines.append(f"l{k}.enable = {r.choice(['u', 'v'])} > {k};")
+    return "\n".join(lines) + "\n", [("small-lamp", x, y) for x, y in pos]
+
+
+# ------------------------------------------------------------------ twin: pole build vs pole-less build
+def logical_view(bpj, harvest):
+    """the circuit without poles, in terms of the compiler's placement ids: configuration of every
+    non-pole entity and the partition of their connectors"""
+    if not harvest or "places" not in harvest:
+        return None
+    num = bx.id_to_number(bpj, harvest)
+    back = {}
+    for pid, n in num.items():
+        back.setdefault(n, pid)
+    raw = {int(e["entity_number"]): e for e in bx.entities_of(bpj)}
+    cfg = {}
+    for n, e in raw.items():
+        if e["name"] in bx.POLES:
+            continue
+        pid = back.get(n)
+        if pid is None:
+            return None
+        rest = {k: v for k, v in e.items() if k not in ("entity_number", "position", "player_description")}
+        cfg[pid] = json.dumps(rest, sort_keys=True)
+    part = {frozenset((back[en], c) for en, c in blk) for blk in bx.partition_actual(bpj)}
+    return cfg, part
+
+
+def twin_diff(with_poles, without):
+    """None if the two builds are the same circuit (same entities, same configuration, same networks
+    up to relays); else a description of the first difference"""
+    a = logical_view(with_poles.bpj, with_poles.harvest)
+    b = logical_view(without.bpj, without.harvest)
+    if a is None or b is None:
+        return {"kind": "twin-undecided"}
+    if set(a[0]) != set(b[0]):
+        return {"kind": "twin-entities", "only_with_poles": sorted(set(a[0]) - set(b[0]))[:5],
+                "only_without": sorted(set(b[0]) - set(a[0]))[:5]}
+    for pid in sorted(a[0]):
+        if a[0][pid] != b[0][pid]:
+            return {"kind": "twin-configuration", "entity": pid, "with_poles": a[0][pid][:600], "without": b[0][pid][:600]}
+    if a[1] != b[1]:
+        f = lambda blocks: [sorted(map(list, blk)) for blk in list(blocks)[:3]]
+        return {"kind": "twin-networks", "only_with_poles": f(a[1] - b[1]), "only_without": f(b[1] - a[1])}
+    return None
